@@ -65,12 +65,21 @@ class Cls:
 def fn(a=None):
   return ('other.fn', a)
 ''')
+  os.makedirs(os.path.join(d, 'c19pkg', 'third'))
+  open(os.path.join(d, 'c19pkg', 'third', '__init__.py'), 'w').close()
+  for sub in ('third', 'fourth'):
+    os.makedirs(os.path.join(d, 'c19pkg', sub), exist_ok=True)
+    open(os.path.join(d, 'c19pkg', sub, '__init__.py'), 'w').close()
+    with open(os.path.join(d, 'c19pkg', sub, 'mod.py'), 'w') as fh:
+      fh.write("def fn(a=None):\n  return ('%s.fn', a)\n" % sub)
   sys.path.insert(0, d)
   import atexit
   atexit.register(lambda: shutil.rmtree(d, ignore_errors=True))
   gin.config.register_file_reader(lambda p: io.StringIO(MEM[p]), lambda p: p in MEM)
   import c19pkg.sub.mod  # pylint: disable=import-outside-toplevel,unused-import
   import c19pkg.other  # pylint: disable=import-outside-toplevel,unused-import
+  import c19pkg.third.mod  # pylint: disable=import-outside-toplevel,unused-import
+  import c19pkg.fourth.mod  # pylint: disable=import-outside-toplevel,unused-import
 
 
 HEAD = 'from __gin__ import dynamic_registration\n'
@@ -331,7 +340,80 @@ def run_negative(case, res):
     res.w(wit)
 
 
+MULTI_IMPORTS = {
+    'sub': ['from c19pkg.sub import mod', 'from c19pkg.sub import mod as mod2', 'from c19pkg.sub import mod as mod3'],
+    'other': ['from c19pkg import other as mod', 'from c19pkg import other as mod2'],
+    'third': ['from c19pkg.third import mod', 'from c19pkg.third import mod as mod2', 'from c19pkg.third import mod as m'],
+    'fourth': ['from c19pkg.fourth import mod', 'from c19pkg.fourth import mod as mod3'],
+}
+
+
+def multi_cases():
+  """3 or 4 modules whose imports bind the same (or a generator-style) name, one file each, chained by includes."""
+  for mods_ in (('sub', 'other', 'third'), ('sub', 'third', 'fourth'), ('sub', 'other', 'third', 'fourth')):
+    for forms in itertools.product(*[range(len(MULTI_IMPORTS[m])) for m in mods_]):
+      for struct in ('chain', 'separate_parses'):
+        yield ['multi', list(mods_), list(forms), struct]
+
+
+def run_multi(case, res):
+  _, mods_, forms, struct = case
+  desc = list(case)
+  harness.hard_reset()
+  MEM.clear()
+  res.case(tuple(map(repr, case)), True)
+  import importlib
+  objs = {'sub': importlib.import_module('c19pkg.sub.mod').fn, 'other': importlib.import_module('c19pkg.other').fn,
+          'third': importlib.import_module('c19pkg.third.mod').fn, 'fourth': importlib.import_module('c19pkg.fourth.mod').fn}
+  texts = []
+  for m, f in zip(mods_, forms):
+    imp = MULTI_IMPORTS[m][f]
+    name = imp.split(' as ')[1] if ' as ' in imp else imp.split()[-1]
+    texts.append(HEAD + imp + '\n' + "%s.fn.a = 'val:%s'\n" % (name, m))
+  try:
+    if struct == 'chain':
+      for i in range(len(texts) - 1, 0, -1):
+        MEM['c19_m%d.gin' % i] = texts[i] + ("include 'c19_m%d.gin'\n" % (i + 1) if i + 1 < len(texts) else '')
+      gin.parse_config(texts[0] + "include 'c19_m1.gin'\n")
+    else:
+      for t in texts:
+        gin.parse_config(t)
+  except Exception as e:  # pylint: disable=broad-except
+    res.violation('dynamic_parse_failed', '%r: %r' % (desc, e), desc)
+    return
+
+  def read():
+    out = {}
+    for m in mods_:
+      try:
+        out[m] = gin.get_configurable(objs[m])()[1]
+      except Exception as e:  # pylint: disable=broad-except
+        out[m] = 'raised %s' % type(e).__name__
+    return out
+  want = {m: 'val:%s' % m for m in mods_}
+  got = read()
+  if got != want:
+    res.violation('configured_object', '%r: read back %r, expected %r' % (desc, got, want), desc)
+    return
+  s1 = gin.config_str()
+  harness.hard_reset()
+  try:
+    gin.parse_config(s1)
+  except Exception as e:  # pylint: disable=broad-except
+    res.violation('config_str_unparseable', '%r: config_str does not re-parse (%r):\n%s' % (desc, e, s1), desc)
+    return
+  got2 = read()
+  if got2 != want:
+    res.violation('config_str_roundtrip_objects', '%r: after re-parsing config_str the objects see %r, expected %r\n%s' %
+                  (desc, got2, want, s1), desc)
+    return
+  res.w('colliding_names_realiased')
+  res.w('config_str_reparses')
+  res.outcome('multi')
+
+
 def gen(tier):
+  yield from multi_cases()
   orders = [['fn'], ['fn', 'Cls', 'Cls.meth', 'Cls.Nested'], ['Cls.meth', 'Cls', 'fn'], ['Cls', 'Cls.meth'],
             ['Cls.Nested', 'fn']]
   if tier != 'quick':
@@ -356,7 +438,7 @@ def run_shard(i, tier):
     if n % NSH != i:
       continue
     try:
-      (run_negative if c[0] == 'neg' else run_case)(c, res)
+      {'neg': run_negative, 'multi': run_multi}.get(c[0], run_case)(c, res)
     except Exception:  # pylint: disable=broad-except
       import traceback
       res.extra['harness_error'] = traceback.format_exc() + '\ncase=%r' % (c,)
@@ -369,6 +451,6 @@ def run_shard(i, tier):
 
 def replay(c):
   res = core.Result()
-  (run_negative if c[0] == 'neg' else run_case)(c, res)
+  {'neg': run_negative, 'multi': run_multi}.get(c[0], run_case)(c, res)
   harness.hard_reset()
   return res
